@@ -768,3 +768,15 @@ Check C09_text_to_text_cli_total :
   Forall (stmt_ok_parsed O key_ok None) p ->
   scan_comments (render (format_cli O p)) = forest_comments text forest.
 Print Assumptions C09_text_to_text_cli_total.
+
+(* the hypotheses of the _total theorems are satisfiable: a 13-line text with comments at every position class the item
+   view reads (statement comment, statement end-of-line, list leading / end-of-line / last item, record, do-block comment,
+   do_statement end-of-line); all eight comment pairs of the tree are the eight comments of the parsed program *)
+Example C09_total_hypotheses_satisfiable :
+  exists forest p,
+    parse_program_c view_witness = PCOk forest p
+    /\ forest_no_empty_container view_witness forest = true
+    /\ forest_comments view_witness forest =
+       ["// top"; "// lead"; "// eol"; "// e2"; "// stmt"; "// ra"; "// dc"; "// ds"]%string
+    /\ program_comments p = forest_comments view_witness forest.
+Proof. exact total_hypotheses_satisfiable. Qed.
